@@ -3,7 +3,7 @@ import re
 from vx.rs import LostAnchor, mask
 
 
-def emit_error_enum(u):
+def emit_error_enum(u, ram_bundle=False):
     """The crate's real `Error` enum (src/errors.rs), verbatim except:
     R-derive (#[derive(Debug)] dropped), cfg(feature = "ram_bundle") evaluated false
     (default features), payload types of dependencies redirected to opaque stubs."""
@@ -12,8 +12,14 @@ def emit_error_enum(u):
     text = re.sub(r'#\[derive\(Debug\)\]\n', '', text)
     u.count('R-derive', n)
     # cfg(feature = "ram_bundle") off: drop the attribute, following doc lines and the variant
-    text, k = re.subn(r'[ \t]*#\[cfg\(feature = "ram_bundle"\)\]\n(?:[ \t]*///[^\n]*\n)*[ \t]*[A-Za-z]+\([^)]*\),\n', '', text)
-    u.count('R-cfg-off', k)
+    if ram_bundle:
+        # cfg(feature = "ram_bundle") on: keep the variants, drop the attribute; scroll::Error -> opaque stub
+        text, k = re.subn(r'[ \t]*#\[cfg\(feature = "ram_bundle"\)\]\n', '', text)
+        text = text.replace('scroll::Error', 'scroll_stub::Error')
+        u.count('R-cfg-on', k)
+    else:
+        text, k = re.subn(r'[ \t]*#\[cfg\(feature = "ram_bundle"\)\]\n(?:[ \t]*///[^\n]*\n)*[ \t]*[A-Za-z]+\([^)]*\),\n', '', text)
+        u.count('R-cfg-off', k)
     text = re.sub(r'(?m)^\s*///[^\n]*\n', '', text)
     text = text.replace('io::Error', 'std::io::Error').replace('str::Utf8Error', 'std::str::Utf8Error')
     text = text.replace('serde_json::Error', 'serde_json_stub::Error').replace('data_encoding::DecodeError', 'data_encoding_stub::DecodeError')
